@@ -46,6 +46,8 @@ def run(chk):
     for fn in ("inv", "transpose", "adjoint"):
         RuleRunner(chk, "C05", fn, CONTRACTS[fn], CONTRACTS, dict(spec_b, arities=[1, 2])).run()
     rp = run_rules(chk, "C05", [], {})   # evidence boilerplate (lemma stats, trust base)
+    from props import c10
+    c10.annotation_obligations(chk)      # eig rules: Unitary / Stiefel on the returned n x k eigenvector operator
     declare_cases(chk)
 
     def replayer(ob):
